@@ -18,7 +18,10 @@
 (*                                     ClosedSegments, Cache.Snapshot)     *)
 (*  compact.go:WriteSnapshot           SnapTmp  (NNN-001.tsm.tmp, synced)  *)
 (*  file_store.go:replace              SnapRename, SnapInstall             *)
-(*  engine.go:writeSnapshotAndCommit   SnapClear, SnapWalRemove            *)
+(*  engine.go:writeSnapshotAndCommit   SnapClear, SnapWalRemove (WAL.Remove:*)
+(*                                     one step per closed segment, oldest *)
+(*                                     first, as ClosedSegments lists them)*)
+(*  wal.go:rollSegment/newSegmentFile  WalRoll                             *)
 (*  engine.go:compactGroup             CompBegin, CompTmp, CompRename,     *)
 (*   + file_store.go:replace           CompRemove(f)..., CompInstall       *)
 (*  store.go:DeleteSeries              DelBegin, DelNext (per measurement) *)
@@ -48,7 +51,8 @@ CONSTANTS Keys,        \* composite keys (series + field): subset of {"a1","a2",
           MaxWrites,   \* bound: number of write calls (= largest value)
           MaxBatch,    \* bound: points per write
           MaxSnap, MaxCompact, MaxDelete, MaxCrash,   \* bounds on the other calls
-          Dev          \* enabled deviations, subset of {"F1", "F14"}
+          MaxRoll,     \* bound: WAL segment rollovers (wal.go rollSegment -> newSegmentFile)
+          Dev          \* enabled deviations, subset of {"F1", "F14"} (+ "walNewestFirst": negative control only)
 
 VARIABLE st
 
@@ -158,8 +162,21 @@ SnapTmp(s) == IF s.snap = Empty THEN [s EXCEPT !.sfile = NoId, !.spc = "tmp"]   
 SnapRename(s) == [s EXCEPT !.files = {IF Id(f) = s.sfile THEN [f EXCEPT !.tmp = FALSE] ELSE f : f \in @}, !.spc = "renamed"]
 SnapInstall(s) == [s EXCEPT !.fset = @ \cup {Mem(f) : f \in {g \in s.files : Id(g) = s.sfile}}, !.spc = "installed"]
 SnapClear(s) == [s EXCEPT !.snap = Empty, !.spc = "cleared"]
-SnapWalRemove(s) == [s EXCEPT !.wal = SubSeq(@, s.snapN + 1, Len(@)), !.snapN = 0, !.sfile = NoId, !.spc = "idle"]
-SnapFinish(s) == SnapWalRemove(SnapClear(SnapInstall(SnapRename(s))))       \* from "tmp"
+\* WAL.Remove(closedFiles) unlinks the closed segments one by one in the order ClosedSegments returned them (oldest
+\* first); the process can die between two unlinks.  The order matters: a newer segment may overwrite or delete what
+\* an older one wrote, so an older segment must never outlive a newer one.
+SnapWalRemove(s) == IF s.snapN = 0 THEN [s EXCEPT !.sfile = NoId, !.spc = "idle"]
+                    ELSE [s EXCEPT !.wal = IF "walNewestFirst" \in Dev       \* negative control: wrong order
+                                          THEN SubSeq(@, 1, s.snapN - 1) \o SubSeq(@, s.snapN + 1, Len(@)) ELSE Tail(@),
+                                   !.snapN = @ - 1,
+                                   !.sfile = IF s.snapN = 1 THEN NoId ELSE @, !.spc = IF s.snapN = 1 THEN "idle" ELSE @]
+RECURSIVE SnapWalRemoveAll(_)
+SnapWalRemoveAll(s) == IF s.spc = "idle" THEN s ELSE SnapWalRemoveAll(SnapWalRemove(s))
+SnapFinish(s) == SnapWalRemoveAll(SnapClear(SnapInstall(SnapRename(s))))       \* from "tmp"
+\* Segment rollover: the current segment is synced and closed, a new empty one becomes current (wal.go rollSegment when
+\* the segment exceeds 10 MB; the same newSegmentFile as CloseSegment).  Happens at the start of a write, under the WAL lock.
+En_WalRoll(s) == s.up /\ s.wpc = "idle" /\ s.dpc = "idle" /\ s.nR < MaxRoll /\ TailSeg(s) # <<>>
+WalRoll(s) == [s EXCEPT !.wal = Append(@, <<>>), !.synced = 0, !.gap = FALSE, !.nR = @ + 1]
 SnapAll(s) == LET s1 == SnapBegin(s) IN IF s1.spc = "taken" THEN SnapFinish(SnapTmp(s1)) ELSE s1
 
 \* COMPACTION (full: all files of the file set)
@@ -264,7 +281,7 @@ Init == st = [wal |-> << <<>> >>, synced |-> 0, gap |-> FALSE, files |-> {}, gen
               cache |-> Empty, resid |-> 0, snap |-> Empty, fset |-> {}, idx |-> {}, up |-> TRUE, rpc |-> "up",
               wpc |-> "idle", wcur |-> NoW, spc |-> "idle", snapN |-> 0, sfile |-> NoId,
               cpc |-> "idle", cgroup |-> {}, cnew |-> NoId, dpc |-> "idle", dcur |-> NoD,
-              nW |-> 0, nS |-> 0, nC |-> 0, nD |-> 0, nCr |-> 0, acked |-> Empty, taint |-> {}]
+              nW |-> 0, nS |-> 0, nC |-> 0, nD |-> 0, nCr |-> 0, nR |-> 0, acked |-> Empty, taint |-> {}]
 
 Batches == {b \in SUBSET Pts : Cardinality(b) \in 1..MaxBatch}
 
@@ -272,6 +289,7 @@ Writer == \/ /\ En_Write(st) /\ \E b \in Batches : st' = WCache(st, b)
           \/ /\ st.up /\ st.wpc = "cached" /\ st' = WAppend(st)
           \/ /\ st.up /\ st.wpc = "appended" /\ st' = WSync(st)
           \/ /\ st.up /\ st.wpc = "synced" /\ st' = WAck(st)
+          \/ /\ En_WalRoll(st) /\ st' = WalRoll(st)
 Snapshotter == \/ /\ En_SnapBegin(st) /\ st' = SnapBegin(st)
                \/ /\ st.up /\ st.spc = "taken" /\ st' = SnapTmp(st)
                \/ /\ st.up /\ st.spc = "tmp" /\ st' = SnapRename(st)
@@ -340,6 +358,6 @@ C10_ListedIffHasPoints == Clean /\ Quiet => st.idx = {Ser(k) : k \in KeysIn(Read
 NoTaintedLoss == Quiet => ReadOf(st) = st.acked
 
 \* every growing value is bounded by the guards above; the constraint states it once more
-Bounded == /\ Len(st.wal) <= MaxSnap + 2 /\ Cardinality(st.files) <= MaxSnap + MaxCompact + 2
+Bounded == /\ Len(st.wal) <= MaxSnap + MaxRoll + 2 /\ Cardinality(st.files) <= MaxSnap + MaxCompact + 2
            /\ \A i \in 1..Len(st.wal) : Len(st.wal[i]) <= 2 * (MaxWrites + MaxDelete) + MaxCrash
 =============================================================================
